@@ -4,10 +4,12 @@ import (
 	"bufio"
 	"bytes"
 	"compress/flate"
+	"context"
 	"encoding/json"
 	"fmt"
 	"io"
 	"math/rand"
+	"net"
 	"net/http"
 	"net/url"
 	"os"
@@ -40,7 +42,9 @@ type mop struct {
 }
 
 var extremes = map[string]uint64{"2^31-1": 1<<31 - 1, "2^31": 1 << 31, "2^32": 1 << 32, "2^40": 1 << 40, "2^47": 1 << 47, "2^62": 1 << 62,
-	"2^63-1": 1<<63 - 1, "0": 0, "126": 126, "65536": 65536}
+	"2^63-1": 1<<63 - 1, "0": 0, "126": 126, "65536": 65536,
+	// the top bit of the 64-bit length set (not a length at all: RFC 6455 5.2)
+	"2^63": 1 << 63, "2^63+16": 1<<63 + 16, "2^64-1": 1<<64 - 1}
 
 var digitsRe = regexp.MustCompile(`[0-9]+`)
 
@@ -285,6 +289,14 @@ var entries = map[string][]struct {
 			}
 			return err
 		}},
+		{"DebugDialer", func(in []byte, s *budgetReader) error {
+			pc := &peerConn{}
+			pc.build = func(k string) []byte { return bytes.Replace(in, []byte(acceptPlaceholder), []byte(acceptFor(k)), 1) }
+			dd := wsutil.DebugDialer{Dialer: ws.Dialer{NetDial: func(ctx context.Context, n, a string) (net.Conn, error) { return &memConnRW{pc}, nil }},
+				OnRequest: func([]byte) {}, OnResponse: func([]byte) {}}
+			_, _, _, err := dd.Dial(context.Background(), "ws://h/p")
+			return err
+		}},
 		{"DialerSmallBuf", func(in []byte, s *budgetReader) error {
 			d := ws.Dialer{ReadBufferSize: 16}
 			uu, _ := url.Parse("ws://h/p")
@@ -390,7 +402,7 @@ func c15(c *ctx) {
 	defer out.Close()
 	shapes := vh.Shapes{}
 	meta := &vh.Meta{Property: "C15", Tier: c.tier, Seed: c.seed,
-		Rule: "records = valid seeds of each kind (frame streams incl. a compressed frame, requests, responses, option lists, deflate streams) mutated by scripts that TLC -simulate draws from Mutate.tla (flip, truncate, set a length field to an extreme, duplicate, insert separator bytes, drop CR, splice, blow up) and by seeded random scripts, fed to every decoding entry point of that kind (9 frame, 4 request, 2 response, 3 option, 2 deflate entry points); plus the extreme announced lengths 2^31-1..2^63-1 at every frame entry point with the allocation during header decoding measured, and MaxFrameSize refusals with the payload bytes pulled counted; distinct = (kind, entry point, outcome, mutation operator sequence)"}
+		Rule: "records = valid seeds of each kind (frame streams incl. a compressed frame, requests, responses, option lists, deflate streams) mutated by scripts that TLC -simulate draws from Mutate.tla (flip, truncate, set a length field to an extreme, duplicate, insert separator bytes, drop CR, splice, blow up) and by seeded random scripts, fed to every decoding entry point of that kind (9 frame, 4 request, 3 response, 3 option, 2 deflate entry points); plus the extreme announced lengths 2^31-1..2^63-1 at every frame entry point with the allocation during header decoding measured, and MaxFrameSize refusals with the payload bytes pulled counted; distinct = (kind, entry point, outcome, mutation operator sequence)"}
 	rng := vh.Rand(c.seed, "c15")
 	seeds := c15seeds(rng)
 	marker, _ := os.OpenFile(c.dir+"/current_input", os.O_CREATE|os.O_RDWR, 0o644)
